@@ -50,7 +50,7 @@ CHECKS = {
    text="Every single event position of each generated program (initial value, operand, callback, capture, handler expression, handler call) is made to panic in turn; the panic must be observed by the caller, no later-step event may exist, and an async future must not be left pending with nothing outstanding."),
  "C14": dict(level="exploration", engine="L", design="6/C14",
    technique="property-based testing (proptest, in process over join_impl): structure round trip - a generated chain structure is rendered to text and the parser must recover exactly it; exhaustive table of adjacent operator pairs",
-   text="All 23 operator spellings with every flag combination are enumerated pairwise (about 4 200 inputs) and 40 000 (quick) / 2 000 000 (thorough) random structures with adversarial operands (operator look-alikes inside groups, macros, literals, closure return types, turbofish, nested generics, if / match) are rendered and parsed back; proptest shrinks a failure to a minimal input; the thorough tier adds a coverage-guided libFuzzer stage (12 workers x 300 s) over a structure decoder. Two genuine defects remain open as known findings (bracket-leading operand after `=>`; `let` before a top-level && / || value), one was fixed (table priority)."),
+   text="All 23 operator spellings with every flag combination are enumerated pairwise (about 4 200 inputs) and 40 000 (quick) / 1 000 000 (thorough) random structures with adversarial operands (operator look-alikes inside groups, macros, literals, closure return types, turbofish, nested generics, if / match) are rendered and parsed back; proptest shrinks a failure to a minimal input; the thorough tier adds a coverage-guided libFuzzer stage (12 workers x 300 s) over a structure decoder. Two genuine defects remain open as known findings (bracket-leading operand after `=>`; `let` before a top-level && / || value), one was fixed (table priority)."),
  "C15": dict(level="exploration", engine="L", design="6/C15",
    technique="property-based testing / fuzzing in process (proptest): token soups over the DSL vocabulary, every listed structural fault applied to generated valid programs, token-level edits of valid programs; oracle = outcome class + syntactic validity of the output (syn)",
    text="Each input is lexed, parsed and expanded under catch_unwind with one of the 8 configurations; the outcome must be a valid expression, a syn error or one of the generator's two configuration messages, and fault inputs must be rejected. 420 000 inputs in the quick tier, a third of which reach the generator; the thorough tier adds a coverage-guided libFuzzer stage (12 workers x 300 s) over a token-soup decoder."),
